@@ -7,8 +7,8 @@ from genlib import *
 
 LEAN_MODULES = ["MpirProofs.Props.C07_gcdext"]
 THEOREMS = ["Mpir.C07x.gcdext_1_bounds", "Mpir.C07x.gcdext_hook_correct", "Mpir.C07x.mpn_gcdext_lehmer_n_correct",
-            "Mpir.C07x.gcdext_lehmer_n_value_correct", "Mpir.C07x.mpn_gcdext_contract", "Mpir.C07x.mpz_gcdext_correct",
-            "Mpir.C07x.mpz_invert_correct"]
+            "Mpir.C07x.gcdext_lehmer_n_value_correct", "Mpir.C07x.cofBound_contract", "Mpir.C07x.mpn_gcdext_contract_partial",
+            "Mpir.C07x.mpz_gcdext_correct_partial", "Mpir.C07x.mpz_invert_correct_partial"]
 TRUSTED = ["hand-written models lean/Mpir/Model/Gcdext.lean of mpn_gcdext_hook / mpn_gcdext_lehmer_n / mpn_gcdext (values exact, size fields and "
            "a flag for stores outside a buffer tracked), tied by exact comparison of {gp,gn}, *usize, {up,|*usize|} on every run"]
 ASSUMPTIONS = ["mpn_gcdext for n >= GCDEXT_DC_THRESHOLD: the divide-and-conquer model (dcFirst/dcLoop/dcFinish with hgcd_mul_matrix_vector and compute_v) is "
